@@ -246,7 +246,8 @@ fn cfb_name_key(n: &str) -> (usize, Vec<u16>) {
 }
 
 pub fn simple_cfb(streams: &[(&str, &[u8])]) -> Vec<u8> {
-    build_cfb(streams, &CfbLayout::default())
+    // (an odd fill seed: version-3 directory entries carry junk in the ignored high size bits)
+    build_cfb(streams, &CfbLayout { fill_seed: 1, ..CfbLayout::default() })
 }
 
 pub fn build_cfb(streams: &[(&str, &[u8])], l: &CfbLayout) -> Vec<u8> {
